@@ -147,6 +147,31 @@ Qed.
 Theorem reverse_twice_spec c : reverse_twice A c = Done (rev c, rev c).
 Proof. unfold reverse_twice. rewrite reverse_for_spec. unfold keep_r. rewrite map_id, reverse_for_spec. reflexivity. Qed.
 
+(* any number of passes over the one adaptor object: every pass visits the whole range as it is then *)
+Theorem enumerate_passes_spec fs : forall c, enumerate_passes A fs c = Done (spec_enumerate_passes fs c).
+Proof.
+  induction fs as [|f r IH]; intros c; simpl; [reflexivity|].
+  rewrite enumerate_for_spec, IH. destruct (spec_enumerate_passes r (spec_enumerate_write f c)); reflexivity.
+Qed.
+Theorem reverse_passes_spec fs : forall c, reverse_passes A fs c = Done (spec_reverse_passes fs c).
+Proof.
+  induction fs as [|f r IH]; intros c; simpl; [reflexivity|].
+  rewrite reverse_for_spec, IH. destruct (spec_reverse_passes r (map f c)); reflexivity.
+Qed.
+(* read-only passes: every one of the k passes visits the SAME sequence, and the range is unchanged *)
+Theorem enumerate_passes_read_only k : forall c,
+  enumerate_passes A (repeat (keep_e A) k) c = Done (repeat (spec_enumerate c) k, c).
+Proof.
+  induction k as [|k IH]; intros c; simpl; [reflexivity|].
+  rewrite enumerate_for_spec. unfold keep_e at 1. rewrite enumerate_read_only, IH. reflexivity.
+Qed.
+Theorem reverse_passes_read_only k : forall c,
+  reverse_passes A (repeat (keep_r A) k) c = Done (repeat (rev c) k, c).
+Proof.
+  induction k as [|k IH]; intros c; simpl; [reflexivity|].
+  rewrite reverse_for_spec. unfold keep_r at 1. rewrite map_id, IH. reflexivity.
+Qed.
+
 Theorem enumerate_nested_spec c :
   enumerate_nested A c = Done (map (fun p => (p, Done (spec_enumerate c))) (spec_enumerate c)).
 Proof.
